@@ -1091,7 +1091,7 @@ def lo_pipe_stream(ctx, rnd, nfam, nrand, flavour):
     from families with SNPs and indels at random distances and on dense random tables.
     -> (evaluations, kinds, violation or None)"""
     evals = 0
-    kinds = {"family": 0, "random": 0, "no-entry": 0, "snp-groups": 0, "indel-groups": 0, "columns": 0, "records": 0}
+    kinds = {"family": 0, "random": 0, "with-reference": 0, "no-entry": 0, "snp-groups": 0, "indel-groups": 0, "columns": 0, "records": 0}
     cases = []
     for it in range(nfam):
         k = rnd.choice([7, 9, 11, 15, 21, 31, 33])
@@ -1127,8 +1127,25 @@ def lo_pipe_stream(ctx, rnd, nfam, nrand, flavour):
         names, table = nk_table(info)
         w = 64 if k <= 31 else 128
         tt = ",".join(names) + "|" + ",".join(f"{a}:{b}" for a, b in table.items())
-        cases.append(("family", f"lo_pipe w={w} k={k} rc=1 table={tt} m={rnd.choice(['0/1', '1/10', '1/4', '1/2', '1/1'])} "
-                                f"depth={rnd.choice([0, 1, 2, 4, 4])} ik={rnd.choice([0, 2, 2, 3])}"))
+        line = (f"lo_pipe w={w} k={k} rc=1 table={tt} m={rnd.choice(['0/1', '1/10', '1/4', '1/2', '1/1'])} "
+                f"depth={rnd.choice([0, 1, 2, 4, 4])} ik={rnd.choice([0, 2, 2, 3])}")
+        if rnd.random() < 0.5:
+            # with a reference: the ancestor, possibly on the other strand, case-masked, with an
+            # ambiguous letter, or with a duplicated stretch (k-mers at several positions)
+            g = base
+            if rnd.random() < 0.3:
+                g = revcomp(g)
+            if rnd.random() < 0.3:
+                g = "".join(c.lower() if rnd.random() < 0.3 else c for c in g)
+            if rnd.random() < 0.3:
+                q = rnd.randrange(len(g))
+                g = g[:q] + rnd.choice("NRn") + g[q + 1:]
+            if rnd.random() < 0.2:
+                q = rnd.randrange(len(g))
+                g = g[:q] + g[q:q + 40] + g[q:]
+            line += f" ref={g}"
+            kinds["with-reference"] += 1
+        cases.append(("family", line))
     for it in range(nrand):
         k = rnd.choice([5, 5, 7, 9])
         nsamp = rnd.randint(1, 5)
